@@ -271,3 +271,33 @@ def conditioning(method, rows, rdesc):
         ref = math.sqrt(mean([a * a for a in z[0]])) or 1.0
         worst = min(worst, math.sqrt(mean([a * a for a in m])) / ref)
     return worst
+
+
+# ------------------------------------------------------------------ round 4: sessions
+
+def pool_whitened(method, rows, n, keep):
+    """util/pooling.pool_rdm for the whitened measures: every (mean-removed, for corr_cov) RDM divided by its
+    whitened norm sqrt(r' V^-1 r), then the entry-wise mean (the final shift is immaterial to the measure)"""
+    v = v_matrix(n, keep)
+    z = []
+    for r in rows:
+        c = center(r) if method == 'corr_cov' else list(r)
+        s = dot(c, solve(v, c))
+        s = math.sqrt(s) if s > 0 else 1.0
+        z.append([a / s for a in c])
+    return [mean([zz[k] for zz in z]) for k in range(len(rows[0]))]
+
+
+def plain_mean(rows):
+    return [mean([r[k] for r in rows]) for k in range(len(rows[0]))]
+
+
+# which later analysis is NOT invariant to the per-RDM normalisation an earlier one applies
+FAMILY = {'euclid': 0, 'neg_riem_dist': 0, 'cosine': 1, 'cosine_cov': 1, 'corr': 2, 'corr_cov': 2,
+          'rho-a': 3, 'spearman': 3, 'kendall': 3, 'tau-b': 3, 'tau-a': 3}
+
+
+def order_sensitive(methods):
+    """some call comes after a call of a coarser family (plain < scale-free < shift-free < rank): had the
+    earlier call normalised the caller's data in place, the later result would change"""
+    return any(FAMILY[a] > FAMILY[b] for i, a in enumerate(methods) for b in methods[i + 1:])
